@@ -51,6 +51,15 @@ gorder = z3.Function('gorder', Int, Int)                   # abstract graph: num
 gnedges = z3.Function('gnedges', Int, Int)                 # number of edges
 bdegl = z3.Function('bdegl', Int, Int, Int)                # bipartite graph: degree of a left vertex
 bdegr = z3.Function('bdegr', Int, Int, Int)                # bipartite graph: degree of a right vertex
+# --- samplers (C13): lists of pairwise distinct, well-shaped clauses compatible with the planted assignments
+SeqSet = z3.ArraySort(ISeq, z3.BoolSort())
+psat = z3.Function('psat', ISeq, Bool)                 # the clause is satisfied by every planted assignment of the call (uninterpreted)
+valid1 = z3.Function('valid1', Int, Int, ISeq, Bool)   # k literals, variables strictly increasing, inside 1..n
+cvalid = z3.Function('cvalid', Int, Int, CSeq, Bool)   # every clause of the list is valid1 and psat
+cdistinct = z3.Function('cdistinct', CSeq, Bool)       # pairwise distinct clauses
+cmem = z3.Function('cmem', ISeq, CSeq, Bool)           # membership
+cset = z3.Function('cset', CSeq, SeqSet)               # the set of the clauses of a list
+csubsel = z3.Function('csubsel', CSeq, CSeq, Bool)     # R lists elements of F at pairwise distinct positions (random.sample)
 navail_x = z3.Function('navail_x', Int, Int, Int)          # number of k-parities over n variables compatible with the planted assignments (uninterpreted)
 navail_p = z3.Function('navail_p', Int, Int, Int)          # number of k-clauses over n variables compatible with the planted assignments of the call (uninterpreted)
 gedge1 = z3.Function('gedge1', Int, Int, Int)              # e-th edge (as enumerated by G.edges()): first endpoint
@@ -178,7 +187,7 @@ FUNCS = dict(tlen=tlen, tcoef=tcoef, tlit=tlit, tunit=tunit, tnegc=tnegc, tset=t
              ilen=ilen, iget=iget, inil=inil, isnoc=isnoc, iapp=iapp, ineg=ineg, haszero=haszero,
              maxof=maxof, minof=minof, maxabs=maxabs, lit_true=lit_true, count=count, ctrue=ctrue,
              clen=clen, cget=cget, cnil=cnil, csnoc=csnoc, capp=capp, ctake=ctake, combs=combs, sat=sat,
-             cmaxabs=cmaxabs, pow2=pow2, chaszero=chaszero, psum=psum, card2=card2, isperm=isperm, sortedperm=sortedperm, invperm=invperm, imapsub=imapsub, zpos=zpos, mpos=mpos, rnbrs=rnbrs, apseq=apseq, negunits=negunits, idxcombs=idxcombs, iflip1=iflip1, iflips=iflips, neqprefix=neqprefix, signvecs=signvecs, sprod=sprod, smul=smul, pfilter=pfilter, iofarr=iofarr, nbrs=nbrs, evar=evar, liftcls=liftcls, liftsem=liftsem, yblock=yblock, implchain=implchain, ishift=ishift, preds=preds, outdeg=outdeg, gtopo=gtopo, gsinkok=gsinkok,
+             cmaxabs=cmaxabs, pow2=pow2, chaszero=chaszero, psum=psum, card2=card2, isperm=isperm, sortedperm=sortedperm, invperm=invperm, imapsub=imapsub, zpos=zpos, mpos=mpos, rnbrs=rnbrs, apseq=apseq, negunits=negunits, idxcombs=idxcombs, iflip1=iflip1, iflips=iflips, neqprefix=neqprefix, signvecs=signvecs, sprod=sprod, smul=smul, pfilter=pfilter, iofarr=iofarr, nbrs=nbrs, evar=evar, liftcls=liftcls, liftsem=liftsem, yblock=yblock, psat=psat, valid1=valid1, cvalid=cvalid, cdistinct=cdistinct, cmem=cmem, cset=cset, csubsel=csubsel, implchain=implchain, ishift=ishift, preds=preds, outdeg=outdeg, gtopo=gtopo, gsinkok=gsinkok,
              ev3=ev3, evrow=evrow, rowapp=rowapp, rowsfrom=rowsfrom, dropc=dropc, dterms=dterms, dcons=dcons, tevent=tevent, cevent=cevent, dlits=dlits, dclauses=dclauses, levent=levent, gad=gad, cdist_tab=cdist_tab, cdist=cdist, cdistall=cdistall, cind=cind, satind=satind, aind=aind)
 
 
@@ -346,6 +355,43 @@ def _on_terms(terms_by_decl):
         # Subst.lean liftcls_*: k two-literal clauses over the two blocks
         out += [z3.Implies(k >= 0, clen(t) == k),
                 z3.Implies(z3.And(xo >= 0, yo >= 0, z3.Or(sg == 1, sg == -1)), z3.And(z3.Not(chaszero(t)), cmaxabs(t) <= zmax(xo, yo) + zmax(k, 0)))]
+    # --- samplers
+    jv, iv2 = z3.Int('j!v1'), z3.Int('i!v1')
+    for (k, n, c) in terms_by_decl.get('valid1', []):
+        # definition (Sample.lean valid1_def) and its consequences for the literal bounds
+        out.append(valid1(k, n, c) == z3.And(ilen(c) == k,
+                                             _forall([jv], z3.Implies(z3.And(0 <= jv, jv < k), z3.And(1 <= zabs(iget(c, jv)), zabs(iget(c, jv)) <= n)), [iget(c, jv)]),
+                                             z3.ForAll([iv2, jv], z3.Implies(z3.And(0 <= iv2, iv2 < jv, jv < k), zabs(iget(c, iv2)) < zabs(iget(c, jv))))))
+        out.append(z3.Implies(valid1(k, n, c), z3.And(z3.Not(haszero(c)), maxabs(c) <= zmax(n, 0))))
+    for (k, n, L) in terms_by_decl.get('cvalid', []):
+        out.append(z3.Implies(L == cnil, cvalid(k, n, L)))
+        out.append(z3.Implies(cvalid(k, n, L), z3.And(z3.Not(chaszero(L)), cmaxabs(L) <= zmax(n, 0))))      # Sample.lean cvalid_bounds
+        # the counting lemma (Sample.lean distinct_valid_le_card): pairwise distinct valid clauses are at most as many as there are
+        out.append(z3.Implies(z3.And(cvalid(k, n, L), cdistinct(L)), clen(L) <= navail_p(k, n)))
+        if z3.is_app(L) and L.decl().name() == 'csnoc':
+            L0, c = L.arg(0), L.arg(1)
+            out.append(cvalid(k, n, L) == z3.And(cvalid(k, n, L0), valid1(k, n, c), psat(c)))
+    for (L,) in terms_by_decl.get('cdistinct', []):
+        out.append(z3.Implies(L == cnil, cdistinct(L)))
+        if z3.is_app(L) and L.decl().name() == 'csnoc':
+            L0, c = L.arg(0), L.arg(1)
+            out.append(cdistinct(L) == z3.And(cdistinct(L0), z3.Not(cmem(c, L0))))
+    for (c, L) in terms_by_decl.get('cmem', []):
+        out.append(z3.Implies(L == cnil, z3.Not(cmem(c, L))))
+        out.append(cmem(c, L) == z3.Select(cset(L), c))
+        if z3.is_app(L) and L.decl().name() == 'csnoc':
+            out.append(cmem(c, L) == z3.Or(cmem(c, L.arg(0)), c == L.arg(1)))
+    for (L,) in terms_by_decl.get('cset', []):
+        out.append(z3.Implies(L == cnil, cset(L) == z3.K(ISeq, z3.BoolVal(False))))
+        if z3.is_app(L) and L.decl().name() == 'csnoc':
+            out.append(cset(L) == z3.Store(cset(L.arg(0)), L.arg(1), z3.BoolVal(True)))
+    for (R, F) in terms_by_decl.get('csubsel', []):
+        # Sample.lean subsel_*: a selection at distinct positions inherits distinctness, validity and the bounds
+        out.append(z3.Implies(csubsel(R, F), z3.And(z3.Implies(cdistinct(F), cdistinct(R)), clen(R) <= clen(F),
+                                                    cmaxabs(R) <= cmaxabs(F), z3.Implies(chaszero(R), chaszero(F)))))
+        for (k, n, L) in terms_by_decl.get('cvalid', []):
+            if L.eq(F):
+                out.append(z3.Implies(z3.And(csubsel(R, F), cvalid(k, n, F)), cvalid(k, n, R)))
     for (X,) in terms_by_decl.get('implchain', []):
         # Seq.lean implchain_*: n-1 two-literal clauses over the literals of X
         out += [z3.Implies(ilen(X) >= 1, clen(implchain(X)) == ilen(X) - 1), cmaxabs(implchain(X)) <= maxabs(X),
